@@ -98,7 +98,7 @@ impl<S: PageSize> Add<u64> for PhysFrame<S> {
     type Output = Self;
     #[inline]
     fn add(self, rhs: u64) -> Self::Output {
-        PhysFrame::containing_address(self.start_address() + rhs * S::SIZE)
+        PhysFrame::containing_address(self.start_address() + rhs.checked_mul(S::SIZE).unwrap())
     }
 }
 
@@ -113,7 +113,7 @@ impl<S: PageSize> Sub<u64> for PhysFrame<S> {
     type Output = Self;
     #[inline]
     fn sub(self, rhs: u64) -> Self::Output {
-        PhysFrame::containing_address(self.start_address() - rhs * S::SIZE)
+        PhysFrame::containing_address(self.start_address() - rhs.checked_mul(S::SIZE).unwrap())
     }
 }
 
